@@ -270,3 +270,31 @@ func registrationFlagRule(c *Ctx, rule string) {
 	}
 	c.OnlyIn(rule, "store to tcp.endpoint.isRegistered", c.FieldStores("tcp.endpoint", "isRegistered"), "(*tcp.listenContext).createConnectedEndpoint", "(*tcp.endpoint).Listen", "(*tcp.endpoint).connect", "(*tcp.endpoint).Close")
 }
+
+// segmentConstructorRule: a new segment holds the whole payload it was made
+// from (every view of an inbound packet: Clone allocates when there are more
+// views than the inline array; the single view of an outbound write with its
+// own length), one reference, the id and a clone of the route. The interval
+// analysis assumes newSegment(...).data == Clone(payload); this rule is what
+// makes that assumption a checked fact.
+func segmentConstructorRule(c *Ctx, rule string) {
+	if fn := c.Fn(rule, "tcp.newSegment"); fn != nil {
+		c.CheckSites(rule, fn, []SiteSpec{
+			{Kind: "store", Target: "tcp.segment.refCnt", Args: []string{"new(tcp.segment)", "1"}, Guards: []string{}, Exact: true, N: 1, Why: "one reference for the creator"},
+			{Kind: "store", Target: "tcp.segment.id", Args: []string{"new(tcp.segment)", "$1"}, Guards: []string{}, Exact: true, N: 1, Why: "the 4-tuple handed in"},
+			{Kind: "store", Target: "tcp.segment.route", Args: []string{"new(tcp.segment)", "(*stack.Route).Clone($0)"}, Guards: []string{}, Exact: true, N: 1, Why: "its own route reference"},
+			{Kind: "call", Target: "buffer.VectorisedView.Clone", Args: []string{"$2", "new(tcp.segment).views[:]"}, Guards: []string{}, Exact: true, N: 1, Why: "all views of the payload are kept (Clone allocates beyond the inline array)"},
+			{Kind: "store", Target: "tcp.segment.data", Args: []string{"new(tcp.segment)", "buffer.VectorisedView.Clone($2, new(tcp.segment).views[:])"}, Guards: []string{}, Exact: true, N: 1, Why: "the segment's data is the clone of the WHOLE payload: size and views agree"},
+		})
+	}
+	if fn := c.Fn(rule, "tcp.newSegmentFromView"); fn != nil {
+		c.CheckSites(rule, fn, []SiteSpec{
+			{Kind: "store", Target: "tcp.segment.refCnt", Args: []string{"new(tcp.segment)", "1"}, Guards: []string{}, Exact: true, N: 1, Why: "one reference for the creator"},
+			{Kind: "store", Target: "tcp.segment.id", Args: []string{"new(tcp.segment)", "$1"}, Guards: []string{}, Exact: true, N: 1, Why: "the 4-tuple handed in"},
+			{Kind: "store", Target: "tcp.segment.route", Args: []string{"new(tcp.segment)", "(*stack.Route).Clone($0)"}, Guards: []string{}, Exact: true, N: 1, Why: "its own route reference"},
+			{Kind: "elemstore", Target: "&new(tcp.segment).views", Args: []string{"0", "$2"}, Guards: []string{}, Exact: true, N: 1, Why: "the one view is the caller's view"},
+			{Kind: "call", Target: "buffer.NewVectorisedView", Args: []string{"builtin:len($2)", "new(tcp.segment).views[:1]"}, Guards: []string{}, Exact: true, N: 1, Why: "size = length of that view, views = exactly that view"},
+			{Kind: "store", Target: "tcp.segment.data", Args: []string{"new(tcp.segment)", "buffer.NewVectorisedView(builtin:len($2), new(tcp.segment).views[:1])"}, Guards: []string{}, Exact: true, N: 1, Why: "the segment's data is that one view"},
+		})
+	}
+}
